@@ -20,7 +20,10 @@ RULE = ("BFS over operation histories to depth 4 (thorough 5; numpy values and t
         "algorithms write them (incl. parent/child references and id lists), nested custom data; stores opened by the default constructor, with thread_safe=False and in rewrite mode; two recorded individuals at the same design point; problem definitions with names needing "
         "quoting and extra parameter keys. After EVERY operation the file is reopened with ProblemViewDataStore and with plain sqlite3 and "
         "compared with the reference dict id -> last synchronised image (floats by hex). states = distinct (file rows, in-memory mutation "
-        "counters); plus one run() of NSGA-II, EpsMOEA, OMOPSO, SMPSO, PSOGA, Sweep, ScipyOpt, NLopt with a store.")
+        "counters); plus one run() of NSGA-II, EpsMOEA, OMOPSO, SMPSO, PSOGA, Sweep, ScipyOpt, NLopt with a store; "
+        "sync_individual while a second real connection holds the file EXCLUSIVE for the first k in {1..8,12,25,60} upsert attempts (timeout 0), in 5 history shapes, thread-safe and single-connection store; "
+        "NSGA-II / EpsMOEA / SMPSO run twice on one problem and store with, in between, nothing / a read view of an older file with small ids / a write-mode open of it / a view of the file itself / Individual.from_dict of old rows: "
+        "afterwards every recorded individual OBJECT is compared with the row of its id.")
 ASSUMPTIONS = ["NaN, integer-valued numpy scalars and string-valued features are outside the stated input space",
                "state/algorithm_id/start and finish times are not among the fields the property lists for individuals (times are compared as "
                "ordinary feature values)"]
@@ -67,6 +70,52 @@ def image_of_loaded(obj):
 
 
 _DBS = {"n": 0, "old": []}
+
+
+class LockShim:
+    """Stands where artap.datastore sees the sqlite3 module. Connections get timeout 0 (a locked file answers at once instead
+    of after five seconds); a real second connection holds a real EXCLUSIVE lock on the store file and lets go after the
+    store has met `k` "database is locked" answers at its upsert statement."""
+
+    def __init__(self):
+        self.real = sqlite3
+        self.holder = None
+        self.left = 0
+        self.met = 0
+
+    def __getattr__(self, name):
+        return getattr(sqlite3, name)
+
+    def hold(self, db, k):
+        self.holder = sqlite3.connect(db, timeout=0, isolation_level=None)
+        self.holder.execute("BEGIN EXCLUSIVE")
+        self.left = k
+
+    def release(self):
+        if self.holder is not None:
+            self.holder.execute("ROLLBACK")
+            self.holder.close()
+            self.holder = None
+
+    def connect(self, *args, **kw):
+        shim = self
+        kw.setdefault("timeout", 0)
+
+        class Cur(sqlite3.Cursor):
+            def execute(self, sql, *a):
+                if shim.holder is not None and sql.lstrip().upper().startswith(("INSERT", "REPLACE", "UPDATE")):
+                    if shim.left <= 0:
+                        shim.release()
+                    else:
+                        shim.left -= 1
+                        shim.met += 1
+                return super().execute(sql, *a)
+
+        class Con(sqlite3.Connection):
+            def cursor(self, *a, **k):
+                return super().cursor(Cur)
+        kw["factory"] = Con
+        return sqlite3.connect(*args, **kw)
 
 
 def fresh_db(tag):
@@ -167,6 +216,20 @@ OPS = [("S", i) for i in range(4)] + [("M", i) for i in range(4)] + [("P", i) fo
 
 def apply_history(history, variant):
     """Replay a history on a fresh world. Returns (violations, canon, world)."""
+    shim = None
+    if any(op == "LS" for op, _ in history):
+        import artap.datastore as ds
+        shim = LockShim()
+        ds.sqlite3 = shim            # for the whole history: the non-thread-safe store keeps its first connection
+    try:
+        return _apply_history(history, variant, shim)
+    finally:
+        if shim is not None:
+            shim.release()
+            ds.sqlite3 = sqlite3
+
+
+def _apply_history(history, variant, shim):
     problem, store, db, inds, wrap = make_world(variant)
     ref = {}                 # id -> image at the last synchronisation
     counts = [0, 0, 0, 0]
@@ -177,6 +240,20 @@ def apply_history(history, variant):
             if op == "S":
                 store.sync_individual(inds[i])
                 ref[inds[i].id] = image(inds[i])
+            elif op == "LS":
+                # sync_individual while another connection holds the file locked for the first k attempts
+                from ..core.common import muted
+                idx, k = i
+                shim.met = 0
+                try:
+                    shim.hold(db, k)
+                    with muted():
+                        store.sync_individual(inds[idx])
+                finally:
+                    shim.release()
+                if shim.met != k:
+                    out.append(("C10:locked:harness", "the store met %d locked answers, %d were planned" % (shim.met, k)))
+                ref[inds[idx].id] = image(inds[idx])
             elif op == "M":
                 counts[i] += 1
                 mutate(inds[i], counts[i], wrap)
@@ -395,6 +472,94 @@ def check_run(name, seed):
     return out
 
 
+def observe_all(problem, db, desc):
+    """Every recorded individual (object by object, not id by id) against the row with its id."""
+    out = []
+    rows = dict(read_rows(db))
+    by_id = {}
+    for ind in problem.individuals:
+        by_id.setdefault(ind.id, []).append(ind)
+    dup = {k: len(v) for k, v in by_id.items() if len(set(map(id, v))) > 1}
+    for ind in problem.individuals:
+        if ind.id not in rows:
+            out.append(("C10:recorded:row-missing", "recorded individual id %r has no row; %s" % (ind.id, desc)))
+            break
+        loaded = image_of_loaded(json.loads(rows[ind.id]))
+        img = image(ind)
+        bad = [f for f in ("vector", "costs", "costs_signed", "population_id", "custom") if loaded[f] != img[f]]
+        if bad:
+            out.append(("C10:recorded:row-is-not-this-individual", "recorded individual id %r (vector %r): row differs in %r%s; %s" % (
+                ind.id, list(ind.vector), bad, " -- %d recorded individuals share ids %r" % (sum(dup.values()), sorted(dup)[:5]) if dup else "", desc)))
+            break
+    return out
+
+
+def check_two_runs(name, between, seed):
+    """run(); something else happens to another store in the same process; run() again on the same problem and store."""
+    from .c_support import make_problem, reset_ids, run_algorithm, algorithm_class
+    from artap.datastore import SqliteDataStore, DummyDataStore
+    from artap.individual import Individual
+    from artap.problem import ProblemViewDataStore
+    from ..core import shim as shim_mod
+    import atexit
+    desc = "%s run twice on one problem and store, in between: %s" % (name, between)
+    out = []
+    # an older, small results file (ids 0..2)
+    reset_ids()
+    old = make_problem(n_params=2, bounds=[[0.0, 1.0]] * 2, criteria=["minimize", "minimize"])
+    old_db = fresh_db("c10old")
+    old.data_store = SqliteDataStore(old, database_name=old_db)
+    for k in range(3):
+        ind = Individual([0.1 * k, 0.5])
+        ind.costs = [float(k), 1.0]
+        old.individuals.append(ind)
+    old.data_store.sync_all()
+    old.data_store.destroy()
+    db = fresh_db("c10two")
+    problem, alg, exc = run_algorithm(name, None, seed, 3, 2, n_params=2, n_costs=2, store_path=db)
+    if exc is not None:
+        return [("C10:tworuns:%s:exception:%s" % (name, type(exc).__name__), "%s: first run raised %r" % (desc, exc))]
+    try:
+        if between == "view_old":
+            view = ProblemViewDataStore(database_name=old_db)
+            atexit.unregister(view.cleanup)
+            view.data_store.destroy()
+        elif between == "write_old":
+            other = make_problem(n_params=2, bounds=[[0.0, 1.0]] * 2, criteria=["minimize", "minimize"])
+            other.data_store = SqliteDataStore(other, database_name=old_db)        # write mode on an existing file: loads it
+            other.data_store.destroy()
+        elif between == "view_self":
+            view = ProblemViewDataStore(database_name=db)
+            atexit.unregister(view.cleanup)
+            view.data_store.destroy()
+        elif between == "from_dict":
+            for row in read_rows(old_db):
+                Individual.from_dict(json.loads(row[1]))
+        sh = shim_mod.install()
+        sh.reset(seed + 1, None)
+        try:
+            alg2 = algorithm_class(name)(problem)
+            alg2.options['max_population_number'] = 2
+            alg2.options['max_population_size'] = 3
+            alg2.options['verbose_level'] = 0
+            alg2.run()
+        finally:
+            sh.ctx = None
+    except Exception as e:
+        return [("C10:tworuns:%s:exception:%s" % (name, type(e).__name__), "%s raised %r" % (desc, e))]
+    store = problem.data_store
+    problem.data_store = DummyDataStore()
+    ids = [i.id for i in problem.individuals]
+    if len(set(ids)) != len(ids) and len(set(map(id, problem.individuals))) == len(ids):
+        out.append(("C10:tworuns:recorded-individuals-share-ids", "%d recorded individuals, %d distinct ids; %s" % (len(ids), len(set(ids)), desc)))
+    out += [(k.replace("C10:", "C10:tworuns:", 1), m) for k, m in observe_all(problem, db, desc)]
+    try:
+        store.destroy()
+    except Exception:
+        pass
+    return out
+
+
 def _shard(shard, col: Collector):
     kind = shard[0]
     if kind == "bfs":
@@ -426,6 +591,29 @@ def _shard(shard, col: Collector):
                 for key, msg in viol:
                     col.violation(key, "history", msg, {"history": hist, "variant": "float"})
         col.sample({"kind": "long periodic history", "period": [first, OPS[0], OPS[1]], "repeats": 4}, 1)
+    elif kind == "locked":
+        # a synchronisation that meets k "database is locked" answers (another connection holds the file) returns only
+        # after the row is written
+        _, variant = shard
+        for k in (1, 2, 3, 4, 5, 6, 7, 8, 12, 25, 60):
+            for hist in ((("LS", (0, k)),), (("S", 0), ("M", 0), ("LS", (0, k))), (("LS", (1, k)), ("LS", (2, k))),
+                         (("A", None), ("P", 3), ("LS", (3, k)), ("M", 3), ("LS", (3, 1))), (("LS", (0, k)), ("M", 0), ("A", None))):
+                col.case()
+                col.count("locked_histories")
+                viol, canon = apply_history(hist, variant)
+                if canon is not None:
+                    col.nontrivial(("locked", variant, k, canon))
+                for key, msg in viol:
+                    col.violation(key.replace("C10:", "C10:locked:", 1) if not key.startswith("C10:locked") else key, "history", msg,
+                                  {"history": hist, "variant": variant})
+        col.sample({"kind": "synchronisation under a foreign lock", "variant": variant, "locked_answers": [1, 8, 60]}, 1)
+    elif kind == "tworuns":
+        _, name, between, seed = shard
+        col.case()
+        col.nontrivial(("tworuns", name, between))
+        col.count("algorithm_runs", 2)
+        for key, msg in check_two_runs(name, between, seed):
+            col.violation(key, "tworuns", msg, {"name": name, "between": between, "seed": seed})
     elif kind == "run":
         _, name, seed = shard
         col.case()
@@ -437,13 +625,15 @@ def _shard(shard, col: Collector):
 
 def replay(sub, case):
     if sub == "history":
-        hist = tuple((op, i) for op, i in case["history"])
+        hist = tuple((op, tuple(i) if isinstance(i, list) else i) for op, i in case["history"])
         return apply_history(hist, case["variant"])[0]
     if sub == "two":
         tt = lambda h: tuple((op, i) for op, i in h)
         return check_two_stores(tt(case["h1"]), tt(case["h2"]))
     if sub == "run":
         return check_run(case["name"], case["seed"])
+    if sub == "tworuns":
+        return check_two_runs(case["name"], case["between"], case["seed"])
     raise ValueError(sub)
 
 
@@ -457,6 +647,11 @@ def run(tier, seed):
     for name in ("NSGAII", "EpsMOEA", "OMOPSO", "SMPSO", "PSOGA", "Sweep", "ScipyOpt", "NLopt"):
         shards.append(("run", name, seed))
     shards.append(("two",))
+    for variant in ("float", "nts"):
+        shards.append(("locked", variant))
+    for name in ("NSGAII", "EpsMOEA", "SMPSO"):
+        for between in ("none", "view_old", "write_old", "view_self", "from_dict"):
+            shards.append(("tworuns", name, between, seed))
     for op in OPS:
         shards.append(("long", op))
     col = run_shards(_shard, shards)
